@@ -413,12 +413,14 @@ pub fn run(cfg: &Cfg) -> i32 {
     // nesting bombs: each in its own journal entry (a stack overflow kills the worker)
     if cfg.mine(docs.len() as u64 + 1) {
         if let Some(first_story) = docs.iter().find(|d| matches!(d, Doc::Story(..))) {
-            for (label, open, close, depth) in [("array-bomb", "[", "]", 200_000usize), ("object-bomb", "{\"a\":", "}", 100_000), ("root-array-bomb", "[", "]", 5_000)] {
+            for (label, open, close, depth) in [("array-bomb", "[", "]", 200_000usize), ("object-bomb", "{\"a\":", "}", 100_000), ("root-array-bomb", "[", "]", 200_000), ("root-named-content-bomb", "{\"a\":[", "]}", 20_000)] {
                 let case = format!("nesting#{label}");
                 rep.journal_start(&case);
                 let body = format!("{}{}{}", open.repeat(depth), if label == "object-bomb" { "1" } else { "" }, close.repeat(depth));
                 let t = if label == "root-array-bomb" {
                     format!("{{\"inkVersion\":21,\"root\":{body},\"listDefs\":{{}}}}")
+                } else if label == "root-named-content-bomb" {
+                    format!("{{\"inkVersion\":21,\"root\":[{}null{},null],\"listDefs\":{{}}}}", open.repeat(depth), close.repeat(depth))
                 } else {
                     body
                 };
